@@ -78,6 +78,8 @@ type AnaInput struct {
 	Distinct    bool
 	Sep         string
 	Frame       AnaFrame
+
+	capture *[]reading // AnalyticUnique: receives the admissible readings
 }
 
 // AnaResult is the verdict on csvq's output column.
@@ -846,6 +848,10 @@ func AnalyticCheck(in AnaInput, got []val.Val) AnaResult {
 		panic("reference model: unknown function " + in.Fn)
 	}
 
+	if in.capture != nil {
+		*in.capture = readings
+		return AnaResult{}
+	}
 	for _, r := range readings {
 		if firstDiff(got, r.want) < 0 {
 			return AnaResult{Reading: r.name}
@@ -882,4 +888,17 @@ func AnalyticCheck(in AnaInput, got []val.Val) AnaResult {
 		names += fmt.Sprintf("; reading %s: %s at row #%d", r.name, r.want[firstDiff(got, r.want)], firstDiff(got, r.want))
 	}
 	return fail("analytic_mismatch:"+in.Fn, d, readings[0].want[d].String()+names)
+}
+
+// AnalyticUnique returns the result column of the call over n rows when the
+// model admits exactly one (no open reading, no order-insensitive check);
+// ok=false otherwise. Used to evaluate nested queries inside-out.
+func AnalyticUnique(in AnaInput, n int) ([]val.Val, bool) {
+	var rs []reading
+	in.capture = &rs
+	AnalyticCheck(in, make([]val.Val, n))
+	if len(rs) != 1 {
+		return nil, false
+	}
+	return rs[0].want, true
 }
